@@ -584,6 +584,12 @@ func (p *Parser) ParseContext(ctx context.Context, tokens []token.Token) (*ast.A
 		if err != nil {
 			// Clean up the AST on error
 			ast.ReleaseAST(result)
+			// A cancellation observed deep inside a statement may have been rewrapped
+			// into a syntax error on its way up, losing the error chain: report it as
+			// what it is.
+			if ctxErr := ctx.Err(); ctxErr != nil {
+				return nil, fmt.Errorf("parsing cancelled: %w", ctxErr)
+			}
 			return nil, err
 		}
 		result.Statements = append(result.Statements, stmt)
